@@ -13,6 +13,10 @@ PRIMS = ["string", "integer", "number", "boolean", "null"]
 NAMES = ["a", "b", "c", "items", "keys", "copy", "get", "class", "def", "a-b", "a_b", "a b", "a.b", "1x", "-",
          "_a", "__init__", "__options__", "self", "é", "name", "type", "values", "update", "pop", "a_b_1",
          "A", "data", "None", "field_", "x-y"]
+# property names the parser cannot use as attributes, with the attribute it derives from them
+RENAMED = {"a-b": "a_b", "a b": "a_b", "a.b": "a_b", "x-y": "x_y", "1x": "field_1x", "-": "field_", "class": "class_value",
+           "def": "def_value", "None": "None_value", "_a": "a", "__init__": "init", "__options__": "options", "é": "field_",
+           "items": "items_1", "keys": "keys_1", "copy": "copy_1"}
 STRS = ["", "a", "ab", "abc", "abcd", "ba", "1", "2020-01-01", "x y", "é", "éé", "P1D", "10:00:00",
         "2020-01-01T10:00:00", "a0eebc99-9c0b-4ef8-bb6d-6bb9bd380a11", "1.2.3.4", "true", "3"]
 PATTERNS = ["^a", "a", "b$", "^[a-z]+$", "^[0-9]+$", "^.{2}$", "a|b", "^$", "^2020", "[0-9]"]
@@ -82,7 +86,9 @@ def kw_string(rng, s):
 
 def kw_array(rng, s, depth):
     k = rng.random()
-    if k < 0.55:
+    if k < 0.05:
+        s["items"] = False                               # an empty array only
+    elif k < 0.55:
         s["items"] = gen_schema(rng, depth - 1)
     elif k < 0.85:
         s["prefixItems"] = [gen_schema(rng, depth - 1) for _ in range(rng.randint(1, 3))]
@@ -103,8 +109,16 @@ def kw_object(rng, s, depth):
     names = []
     if rng.random() < 0.8:
         names = rng.sample(NAMES, rng.randint(1, 4)) if rng.random() < 0.5 else rng.sample(NAMES[:3] + ["d"], rng.randint(1, 3))
+        if rng.random() < 0.02:
+            names.append("")                             # a property named "" (known finding empty-property-name)
         s["properties"] = {n: gen_schema(rng, depth - 1) for n in names}
     pool = names + ([rng.choice(NAMES)] if rng.random() < 0.25 else [])
+    renamed = [n for n in names if n in RENAMED]
+    if renamed and rng.random() < 0.3:
+        # a member that is only mentioned and spells the attribute a renamed property would get
+        n = rng.choice(renamed)
+        pool.append(RENAMED[n] + ("_1" if rng.random() < 0.2 else ""))
+        pool = list(dict.fromkeys(pool))
     if pool and rng.random() < 0.55:
         s["required"] = rng.sample(pool, rng.randint(1, min(len(pool), 2)))
     k = rng.random()
@@ -162,7 +176,22 @@ def enum_for(rng, s, t, depth):
         s["const"] = rng.choice(uniq)
 
 
-def gen_schema(rng: random.Random, depth: int = 3) -> dict:
+def gen_schema(rng: random.Random, depth: int = 3, top: bool = False):
+    """a schema of the fragment; now and then one of the boolean schemas (rarely as the whole document)"""
+    if rng.random() < (0.004 if top else 0.04):
+        return rng.random() < 0.6
+    s = gen_schema_obj(rng, depth)
+    r = rng.random()
+    if r < 0.01:
+        s["enum"] = []                                   # admits nothing
+    elif r < 0.03:
+        for k in ("maxLength", "minLength", "maxItems", "minItems", "maxProperties", "minProperties"):
+            if k in s and rng.random() < 0.5:
+                s[k] = float(s[k])                       # 2.0 is a non-negative integer too (Rule refuses the spelling)
+    return s
+
+
+def gen_schema_obj(rng: random.Random, depth: int = 3) -> dict:
     s: dict = {}
     k = rng.random()
     structural = depth > 0
@@ -259,7 +288,7 @@ def _num_for(rng, s, integer):
 
 
 def _str_for(rng, s):
-    lo, hi = s.get("minLength", 0), s.get("maxLength", 6)
+    lo, hi = int(s.get("minLength", 0)), int(s.get("maxLength", 6))
     fmt = s.get("format")
     if fmt in FORMAT_SAMPLES and rng.random() < 0.8:
         return FORMAT_SAMPLES[fmt]
@@ -312,7 +341,7 @@ def gen_instance(rng: random.Random, s, depth: int = 3):
     if t == "array":
         pre = s.get("prefixItems") or []
         items = s.get("items")
-        lo, hi = s.get("minItems", 0), s.get("maxItems", 4)
+        lo, hi = int(s.get("minItems", 0)), int(s.get("maxItems", 4))
         out = [gen_instance(rng, p, depth - 1) for p in pre]
         n_extra = 0
         if items is not False:
@@ -339,7 +368,7 @@ def gen_instance(rng: random.Random, s, depth: int = 3):
                 for d in ds:
                     if d not in out:
                         out[d] = gen_instance(rng, props.get(d, ap if isinstance(ap, dict) else {}), depth - 1)
-        lo = s.get("minProperties", 0)
+        lo = int(s.get("minProperties", 0))
         tries = 0
         while (ap is not False) and (len(out) < lo or rng.random() < 0.25) and tries < 6:
             tries += 1
@@ -356,7 +385,8 @@ def mutate(rng: random.Random, v, depth=2):
     if isinstance(v, bool):
         return rng.choice([int(v), not v, str(v).lower(), None])
     if isinstance(v, (int, float)):
-        return rng.choice([v + 1, v - 1, v + 0.5, -v, float(v), str(v), v * 2, bool(v) if v in (0, 1) else v + 2, None, [v]])
+        return rng.choice([v + 1, v - 1, v + 0.5, -v, float(v), str(v), v * 2, bool(v) if v in (0, 1) else v + 2, None, [v],
+                           rng.random() < 0.5, rng.random() < 0.5])     # bool is a subclass of int in Python
     if isinstance(v, str):
         return rng.choice([v + "a", v[:-1], "", v + v, v.upper(), 0, None, [v], rng.choice(STRS)])
     if v is None:
@@ -421,7 +451,7 @@ def inputs_of(case):
 
 
 def gen_case(rng: random.Random, depth: int = 3, n_inputs: int = 6) -> dict:
-    s = gen_schema(rng, depth)
+    s = gen_schema(rng, depth, top=True)
     inputs = []
     for _ in range(n_inputs):
         v = gen_instance(rng, s, depth)
@@ -429,6 +459,8 @@ def gen_case(rng: random.Random, depth: int = 3, n_inputs: int = 6) -> dict:
             v = mutate(rng, v)
         inputs.append(v)
     inputs.append(any_value(rng, 2))
+    if rng.random() < 0.25:
+        inputs.append(rng.random() < 0.5)                # the value Python takes for an int
     return mk_case(s, inputs)
 
 
@@ -601,7 +633,9 @@ def norm_ty(d):
             if k == "cons":
                 out[k] = sorted([[c[0], unordered(c[1])] for c in v], key=lambda c: c[0])
             elif k == "data":
-                out[k] = [[f[0], f[1], norm_ty(f[2]), f[3], sorted(f[4])] for f in v]
+                # a property named "" (known finding): Field(alias='') is no alias, the real field is named after
+                # its attribute; the model keeps the property name
+                out[k] = [[f[0], f[1] or f[0], norm_ty(f[2]), f[3], sorted(f[4])] for f in v]
             elif k in ("min", "max", "p", "op"):
                 out[k] = v
             else:
@@ -694,8 +728,9 @@ class C15(Check):
     driver = "C15"
     impl = "harness.c15:impl"
     case_timeout = 20.0
-    rule = ("generated schemas over the fragment (typed / typeless / type lists / combinators next to types, depth<=3, "
-            "hostile property names, degenerate constraint sets) x 7 instances each (schema-directed, mutated neighbours, "
+    rule = ("generated schemas over the fragment (typed / typeless / type lists / combinators next to types, boolean "
+            "schemas, items:false with and without prefixItems, empty enum, empty property names, sizes spelled as "
+            "floats, depth<=3, hostile property names, degenerate constraint sets) x 7 instances each (schema-directed, mutated neighbours, "
             "noise); non-trivial = the schema has >= 2 keywords, the type was built and at least one instance came back; "
             "distinct by the schema document")
     assumptions = [
@@ -773,7 +808,12 @@ class C15(Check):
         if "build" not in io:
             return f"impl: {str(io)[:200]}"
         built = io["build"] == "ok"
-        if built != mo["build"]:
+        if mo.get("emptyName"):
+            # not modelled: `Field(alias='')` is no alias, so a property named "" becomes a field named after its
+            # attribute (and a dependency on "" a ConfigError).  These schemas are outside the theorems (known finding
+            # empty-property-name) and outside the type correspondence; the validator tie and the spec sweep still run.
+            built = False
+        elif built != mo["build"]:
             return f"build verdict differs: real parser {'built a type' if built else 'raised ' + io['build'] + ': ' + io.get('msg', '')}, model {'builds' if mo['build'] else 'raises'}"
         js = io.get("js") or {}
         if js.get("check") is False:
@@ -802,7 +842,8 @@ class C15(Check):
         if not js.get("check"):
             return []
         if io["build"] != "ok":
-            fid = "degenerate-constraints" if io["build"] == "ConfigError" and mo.get("degenerate") else None
+            fid = "degenerate-constraints" if io["build"] == "ConfigError" and mo.get("degenerate") else \
+                "empty-property-name" if io["build"] == "ConfigError" and mo.get("emptyName") else None
             return [(f"building a type raised {io['build']}: {io.get('msg', '')[:120]}", fid)]
         out = []
         clash = mo.get("clash", [])
@@ -826,7 +867,8 @@ class C15(Check):
                         fid = "oneof-branch-stricter"
                     elif m["conforms"] is False:
                         # contract departures: only when the returned value breaks the contract of the built type
-                        fid = next((f for f in FINDINGS_ORDER if f in mo.get("defects", [])), None)
+                        fid = "empty-property-name" if mo.get("emptyName") else \
+                            next((f for f in FINDINGS_ORDER if f in mo.get("defects", [])), None)
                     out.append((f"input {json.dumps(inp)[:120]} returned {json.dumps(o['ok'])[:160]}, which the schema forbids",
                                 fid if agrees else None))
                 k += 1
@@ -862,6 +904,8 @@ class C15(Check):
 
     def distribution(self, case, io):
         s = schema_of(case)
+        if isinstance(s, bool):
+            s = {"type": f"document-{str(s).lower()}"}
         t = s.get("type")
         shape = ("list" if isinstance(t, list) else t) if t else ("enum" if ("enum" in s or "const" in s) and len(s) <= 2 else "typeless" if s else "empty")
         comb = "+".join(k for k in ("anyOf", "oneOf", "allOf") if k in s)
